@@ -135,7 +135,10 @@ namespace
 	  for (size_t i = 0; i < t.m_children.size (); ++i)
 	    {
 	      auto tine = std::make_shared <op_tine> (*merge, i);
-	      auto op = build_exec (t.m_children[i], l, rdv_ll, tine, bn, up);
+	      // Each branch has a scope of its own.  The parser arranges that
+	      // for branches of explicit ALT-lists, but not for E?.
+	      bindings scope {bn};
+	      auto op = build_exec (t.m_children[i], l, rdv_ll, tine, scope, up);
 	      merge->add_branch (op);
 	    }
 
